@@ -7,6 +7,7 @@ stdout: last line = JSON list of observations
   | {"r": "missing", "key": [...]} | {"r": "nosub", "dest": str} | {"r": "other", "what": str}
 """
 import ast
+import contextlib
 import copy
 import json
 import re
@@ -101,7 +102,7 @@ def add_args(parser, ns, src, prefix, fs, todo):
             todo.append(("list", key, False, src.dataclass(d[1])))
 
 
-def build(pdesc):
+def build(pdesc, default_env=False):
     from typing import List
 
     from jsonargparse import ArgumentParser
@@ -142,7 +143,7 @@ def build(pdesc):
             elif kind == "list":
                 p.add_argument("--" + key, type=List[getattr(mod, tname)], default=[])
 
-    p = ArgumentParser(exit_on_error=False, env_prefix="APP", default_env=False)
+    p = ArgumentParser(exit_on_error=False, env_prefix="APP", default_env=default_env)
     p.add_argument("--cfg", action="config")
     fill(p, top_todo)
     if pdesc.get("sub"):
@@ -176,7 +177,7 @@ FAMILIES = [
     ("group", re.compile(r"Group '([^']*)' does not accept nested key '([^']*)'")),
     ("sub", re.compile(r"Subcommand '([^']*)' does not accept nested key '([^']*)'")),
     ("badspec", re.compile(r"Not a valid subclass of \w+\. Got value: (.*?)\n\s*Subclass types expect", re.S)),
-    ("badspec", re.compile(r"Not a valid subclass of \w+\n.*?Given value: (\{.*?)$", re.S | re.M)),
+    ("badspec", re.compile(r"Not a valid subclass of \w+\n.*?Given value: ((?:OrderedDict\(|defaultdict\([^{]*)?\{.*?)$", re.S | re.M)),
     ("missing", re.compile(r'Key "([^"]*)" is required but not included in config object or its value is None')),
     ("nosub", re.compile(r'expected "([^"]*)" to be one of .*?, but it was not provided')),
 ]
@@ -199,7 +200,9 @@ def classify(msg):
         return {"r": "unknown", "fam": 2, "grp": [m.group(1)], "key": [m.group(1)] + m.group(2).split(".")}
     if name == "badspec":
         try:
-            val = ast.literal_eval(m.group(1))
+            text = m.group(1).replace("OrderedDict(", "(")
+            text = re.sub(r"defaultdict\((?:None|<class 'dict'>), ", "(", text)
+            val = ast.literal_eval(text)
             extra = [k for k in val if k not in ("class_path", "init_args", "dict_kwargs")]
             return {"r": "badspec", "extra": extra}
         except Exception:
@@ -209,11 +212,42 @@ def classify(msg):
     return {"r": "nosub", "dest": m.group(1)}
 
 
+@contextlib.contextmanager
+def _environ(extra):
+    import os
+
+    saved = dict(os.environ)
+    os.environ.update(extra)
+    try:
+        yield
+    finally:
+        os.environ.clear()
+        os.environ.update(saved)
+
+
+def _containers(v, kind, top=False):
+    """the same configuration object built from another mapping type: collections.OrderedDict or collections.defaultdict below the top level (the top-level object stays a plain dict)"""
+    import collections
+
+    if isinstance(v, dict):
+        items = [(k, _containers(w, kind)) for k, w in v.items()]
+        if top or kind == "dict":
+            return dict(items)
+        if kind == "odict":
+            return collections.OrderedDict(items)
+        d = collections.defaultdict(dict)
+        d.update(items)
+        return d
+    if isinstance(v, list):
+        return [_containers(w, kind) for w in v]
+    return v
+
+
 def one(case):
     from jsonargparse import ArgumentError
 
     try:
-        p = build(case["parser"])
+        p = build(case["parser"], default_env=bool(case.get("env")))
     except Exception as e:  # the generated parser itself is not constructible: harness bug
         return {"r": "other", "what": "BUILD %s: %s" % (type(e).__name__, str(e)[:200])}
     cfg = case["cfg"]
@@ -237,11 +271,15 @@ def one(case):
         except BaseException as e:
             return {"r": "other", "what": "leftover argv: %s: %s" % (type(e).__name__, str(e)[:120])}
     try:
-        with warnings.catch_warnings():
+        with warnings.catch_warnings(), contextlib.ExitStack() as stack:
             warnings.simplefilter("ignore")
             dflt = case.get("defaults", True)
+            if case.get("env"):
+                # the parser reads the process environment (default_env=True); the environment holds variables that are named
+                # like NESTED fields (APP_<FIELD>), none of which is the variable of an argument of this parser
+                stack.enter_context(_environ(case.get("decoys") or {}))
             if ch == "object":
-                p.parse_object(copy.deepcopy(cfg), defaults=dflt)
+                p.parse_object(_containers(copy.deepcopy(cfg), case.get("container", "dict"), True), defaults=dflt)
             elif ch == "string":
                 p.parse_string(json.dumps(cfg), defaults=dflt)
             elif ch == "argvcfg":
